@@ -86,6 +86,84 @@ def conversions(L, R, qs, tier):
     return n
 
 
+def conversion_congruence(L, R, qs):
+    """every stored word of the layout conversions / additions / CRT lift is congruent to its specification modulo the
+    lane's prime, for every input word (sign cases and wrap-free readings by bisection, spqa/congr.py)"""
+    from ..congr import decide, word
+    K = KERNELS('quick')
+    box = KBox(L)
+    n = 0
+    Q = qs[0] * qs[1] * qs[2] * qs[3]
+    for name in ('q120_add_bbb_simple', 'q120_add_ccc_simple', 'q120_c_from_b_simple', 'q120_b_from_znx64_simple',
+                 'q120_c_from_znx64_simple', 'q120_b_to_znx128_simple'):
+        try:
+            r = box.instantiate(name, K[name], {'nn': 2}, 'accel', expand='values')
+        except (Unsupported, NeedEnum) as e:
+            R.broke('%s: %s' % (name, e))
+            continue
+        if r.status != 'ok':
+            R.ob('conversion-is-congruent-to-its-specification', name, 'refuted', detail='call %s' % (r.status,), key='%s:congruence' % name)
+            continue
+        st = final_state(r, ('out',)).get('res', {})
+        bad = unk = None
+        for off, (size, v) in sorted(st.items()):
+            jobs = []      # (prime index, want builder, atoms, out_bits, out_signed)
+            if name == 'q120_add_bbb_simple':
+                k = (off // 8) % 4
+                A, B = ('x', off, 8), ('y', off, 8)
+                jobs.append((k, lambda mp, c, A=A, B=B: mp.add(word(mp, A, c), word(mp, B, c)), {A: False, B: False}, 64, False))
+            elif name == 'q120_add_ccc_simple':
+                k = (off // 8) % 4
+                A, B = ('x', off, 4), ('y', off, 4)
+                jobs.append((k, lambda mp, c, A=A, B=B: mp.add(word(mp, A, c), word(mp, B, c)), {A: False, B: False}, 32, False))
+            elif name in ('q120_c_from_b_simple', 'q120_c_from_znx64_simple'):
+                k = (off // 8) % 4
+                j = off // 32
+                signed = name.endswith('znx64_simple')
+                A = ('x', 8 * j, 8) if signed else ('x', 32 * j + 8 * k, 8)
+                coef = 1 if off % 8 == 0 else (1 << 32)
+                jobs.append((k, lambda mp, c, A=A, coef=coef: word(mp, A, c, coef), {A: signed}, 32, False))
+            elif name == 'q120_b_from_znx64_simple':
+                k = (off // 8) % 4
+                A = ('x', 8 * (off // 32), 8)
+                jobs.append((k, lambda mp, c, A=A: word(mp, A, c), {A: True}, 64, False))
+            else:
+                j = off // 16
+                for k in range(4):
+                    A = ('x', 32 * j + 8 * k, 8)
+                    jobs.append((k, lambda mp, c, A=A: word(mp, A, c), {('x', 32 * j + 8 * kk, 8): False for kk in range(4)}, 128, True))
+            expect_size = 16 if name.endswith('znx128_simple') else (4 if '_c' in name.replace('q120_', '_') and not name.startswith('q120_b_') else 8)
+            if name == 'q120_add_ccc_simple' or name.startswith('q120_c_from'):
+                expect_size = 4
+            if size != expect_size or v is None:
+                bad = bad or 'res+%d written with %d bytes' % (off, size)
+                continue
+            if expect_size == 4 and isinstance(v, Sym):
+                # c layout: the stored words are reduced representatives
+                k0 = (off // 8) % 4
+                Ic = Intervals(lambda nm, o, sz: (0, (1 << (8 * sz)) - 1), fmt)
+                rg = Ic.ev_all([v])[0]
+                if rg is None or rg[0] < 0 or rg[1] >= qs[k0]:
+                    bad = bad or 'res+%d is not known to be reduced modulo q%d (range %r)' % (off, k0 + 1, rg)
+            for k, want, atoms, ob, osg in jobs:
+                n += 1
+                if not isinstance(v, Sym):
+                    bad = bad or 'res+%d holds the constant %r' % (off, v)
+                    continue
+                status, detail = decide(v, qs[k], want, atoms, ob, osg)
+                if status == 'refuted':
+                    bad = bad or 'res+%d (prime %d): %s' % (off, k + 1, detail)
+                elif status == 'unknown':
+                    unk = unk or 'res+%d (prime %d): %s' % (off, k + 1, detail)
+        if bad:
+            R.ob('conversion-is-congruent-to-its-specification', name, 'refuted', detail=bad, key='%s:congruence' % name)
+        elif unk:
+            R.ob('conversion-is-congruent-to-its-specification', name, 'unknown', detail=unk)
+        else:
+            R.ob('conversion-is-congruent-to-its-specification', name, 'holds')
+    return n
+
+
 def lane_polys(L, box, K, name, ell, qs, mps, cpu='accel'):
     r = box.instantiate(name, K[name], {'ell': ell}, cpu, expand='values')
     if r.status != 'ok':
@@ -231,13 +309,15 @@ def run(tier):
     R.extra['primes'] = qs
     n1 = conversions(L, R, qs, tier)
     n2 = products(L, R, qs, tier)
-    R.evaluations = n1 + n2
+    n3 = conversion_congruence(L, R, qs)
+    R.floor('stored words of the conversions decided modulo their prime', n3, 60)
+    R.evaluations = n1 + n2 + n3
     R.floor('expression nodes of the conversions given an interval', n1, 200)
     R.floor('lanes compared modulo their prime', n2, 150)
     R.rules.append('obligation = (clause, function | product family)')
     R.assumptions += ['bit-splitting identities are integer identities; they apply because no intermediate wraps (C04)',
                       'c-layout operands satisfy their defining relation (second word = 2^32 * first word mod q); a-layout words are < 2^32',
-                      'congruence of the conversions (int64->b, b->c, additions) is not decided, only the absence of wrap and the '
-                      'range of the centred lift']
+                      'the centred lift is the unique representative because it is congruent modulo each prime (CRT) and lies in '
+                      '+-(Q-1)/2']
     return R.finish('E5 intervals on the conversions; E4 expressions of the products rewritten to polynomials over Z/q_k with exact '
                     'splitting identities and compared with the dot product / between reference and AVX2.')
